@@ -190,7 +190,11 @@ def cmd_run(slot, nslots, every=1, procs=4):
     done = set()
     if os.path.exists(resf):
         done = {json.loads(l)["id"] for l in open(resf)}
-    sel = [m for m in ms if m["id"] % every == 0]
+    if every == 0:
+        # mixed selection: every 2nd structural mutant, every 6th numeric-constant mutant
+        sel = [m for m in ms if (m["kind"] != "const" and m["id"] % 2 == 0) or (m["kind"] == "const" and m["id"] % 6 == 0)]
+    else:
+        sel = [m for m in ms if m["id"] % every == 0]
     sel = [m for k, m in enumerate(sel) if k % nslots == slot]
     for m in sel:
         if m["id"] in done:
